@@ -101,6 +101,10 @@ type FEnc struct {
 	ghostText []string
 	ghostDone bool
 	ghostErr error
+	cur *State
+	pendingLeaks []int
+	mergeTarget  *State   // state being built at a join (for merge objects)
+	mergeSources []*State // predecessor exit states, parallel to the values being merged
 }
 
 type epochEdge struct {
@@ -175,11 +179,11 @@ func (e *FEnc) typeFacts(t string, ty types.Type, depth int) {
 				e.fact(fmt.Sprintf("(and (<= %s %s) (<= %s %s))", lo, t, t, hi))
 			}
 		} else if u.Info()&types.IsString != 0 {
-			e.fact(fmt.Sprintf("(>= (len_s %s) 0)", t))
+			e.fact(fmt.Sprintf("(and (>= (len_s %s) 0) (<= (len_s %s) 9223372036854775807))", t, t))
 			e.fact(fmt.Sprintf("(= (= (len_s %s) 0) (= %s %s))", t, t, e.d.strLit("")))
 		}
 	case *types.Slice:
-		e.fact(fmt.Sprintf("(and (>= (sl_off %s) 0) (>= (sl_len %s) 0) (<= (sl_len %s) (sl_cap %s)) (=> (= (sl_base %s) nil_ref) (= (sl_cap %s) 0)))", t, t, t, t, t, t))
+		e.fact(fmt.Sprintf("(and (>= (sl_off %s) 0) (>= (sl_len %s) 0) (<= (sl_len %s) (sl_cap %s)) (<= (+ (sl_off %s) (sl_cap %s)) 9223372036854775807) (=> (= (sl_base %s) nil_ref) (= (sl_cap %s) 0)))", t, t, t, t, t, t, t, t))
 	case *types.Struct:
 		sn := e.sortOf(ty)
 		for i := 0; i < u.NumFields(); i++ {
@@ -241,6 +245,9 @@ func (e *FEnc) term(v *Val) string {
 		return v.T
 	}
 	if v.P != nil {
+		if v.NilIf != "" {
+			return fmt.Sprintf("(ite %s nil_ref %s)", v.NilIf, e.reify(v.P))
+		}
 		return e.reify(v.P)
 	}
 	if v.Fields != nil {
@@ -265,8 +272,6 @@ func (e *FEnc) reify(p *Ptr) string {
 	var base string
 	switch p.Root {
 	case rLocal:
-		a := e.allocs[p.Alloc]
-		a.Leaked = true
 		base = fmt.Sprintf("loc_%d", p.Alloc)
 	case rRef:
 		base = p.Ref
@@ -354,10 +359,85 @@ func (e *FEnc) havocHeap(st *State) {
 	st.heap = map[string]string{}
 }
 
+// leak marks a local object (and everything reachable from its tracked content) as escaped in the current state.
+func (e *FEnc) leak(id int) {
+	st := e.cur
+	if st == nil {
+		e.pendingLeaks = append(e.pendingLeaks, id)
+		return
+	}
+	e.allocs[id].Aliased = true
+	if st.leaked[id] {
+		return
+	}
+	st.leaked[id] = true
+	if c, ok := st.cells[id]; ok {
+		e.leakVal(c)
+	}
+}
+
+// reachable: local objects reachable from the given values through tracked cell contents.
+func (e *FEnc) reachable(st *State, vs []*Val) map[int]bool {
+	out := map[int]bool{}
+	var visit func(v *Val)
+	visit = func(v *Val) {
+		if v == nil {
+			return
+		}
+		if v.P != nil && v.P.Root == rLocal {
+			id := v.P.Alloc
+			if !out[id] {
+				out[id] = true
+				if c, ok := st.cells[id]; ok {
+					visit(c)
+				}
+			}
+		}
+		for _, f := range v.Fields {
+			visit(f)
+		}
+		for _, f := range v.Tup {
+			visit(f)
+		}
+		if v.Box != nil {
+			visit(v.Box)
+		}
+	}
+	for _, v := range vs {
+		visit(v)
+	}
+	return out
+}
+
+func (e *FEnc) markAliased(v *Val) {
+	if v == nil {
+		return
+	}
+	if v.P != nil && v.P.Root == rLocal {
+		e.allocs[v.P.Alloc].Aliased = true
+	}
+	for _, f := range v.Fields {
+		e.markAliased(f)
+	}
+	if v.Box != nil {
+		e.markAliased(v.Box)
+	}
+}
+
+func (e *FEnc) havocSet(st *State, ids map[int]bool) {
+	for id := range ids {
+		a := e.allocs[id]
+		a.Aliased = true
+		if _, ok := st.cells[id]; ok && !a.Weak {
+			st.cells[id] = e.newVal(a.Ty, fmt.Sprintf("hv_%s", mangle(a.Name)))
+		}
+	}
+}
+
 func (e *FEnc) havocLeaked(st *State) {
 	for id := range st.cells {
 		a := e.allocs[id]
-		if a.Leaked && !a.Weak {
+		if st.leaked[id] && !a.Weak {
 			st.cells[id] = e.newVal(a.Ty, fmt.Sprintf("hv_%s", mangle(a.Name)))
 		}
 	}
@@ -371,9 +451,23 @@ func (e *FEnc) fieldOf(v *Val, i int) *Val {
 		return v.Fields[i]
 	}
 	ft := st.Field(i).Type()
-	t := fmt.Sprintf("(%s %s)", fieldSel(v.Sort, i), e.term(v))
+	t := fmt.Sprintf("(%s %s)", fieldSel(v.Sort, i), e.small(v))
 	e.typeFacts(t, ft, 1)
 	return &Val{Ty: ft, Sort: e.sortOf(ft), T: t}
+}
+
+// small returns a short term for v, naming large terms with a fresh constant (keeps queries DAG-sized).
+func (e *FEnc) small(v *Val) string {
+	t := e.term(v)
+	if len(t) < 80 || e.noFacts {
+		return t
+	}
+	n := e.fresh("t", v.Sort)
+	e.fact(eq(n, t))
+	if v.Fields == nil && v.P == nil {
+		v.T = n
+	}
+	return n
 }
 
 func (e *FEnc) explode(v *Val) *Val {
@@ -401,7 +495,7 @@ func (e *FEnc) project(v *Val, path []PathEl) *Val {
 			v = e.fieldOf(v, el.Field)
 		} else {
 			at := v.Ty.Underlying().(*types.Array)
-			t := fmt.Sprintf("(select %s %s)", e.term(v), el.Index)
+			t := fmt.Sprintf("(select %s %s)", e.small(v), el.Index)
 			e.typeFacts(t, at.Elem(), 1)
 			v = &Val{Ty: at.Elem(), Sort: e.sortOf(at.Elem()), T: t}
 		}
@@ -418,9 +512,10 @@ func (e *FEnc) update(v *Val, path []PathEl, nv *Val) *Val {
 		return e.setField(v, el.Field, e.update(e.fieldOf(v, el.Field), path[1:], nv))
 	}
 	at := v.Ty.Underlying().(*types.Array)
-	old := &Val{Ty: at.Elem(), Sort: e.sortOf(at.Elem()), T: fmt.Sprintf("(select %s %s)", e.term(v), el.Index)}
+	vt := e.small(v)
+	old := &Val{Ty: at.Elem(), Sort: e.sortOf(at.Elem()), T: fmt.Sprintf("(select %s %s)", vt, el.Index)}
 	inner := e.update(old, path[1:], nv)
-	return &Val{Ty: v.Ty, Sort: v.Sort, T: fmt.Sprintf("(store %s %s %s)", e.term(v), el.Index, e.term(inner))}
+	return &Val{Ty: v.Ty, Sort: v.Sort, T: fmt.Sprintf("(store %s %s %s)", vt, el.Index, e.small(inner))}
 }
 
 // load reads through an engine pointer in state st.
@@ -511,7 +606,12 @@ func (e *FEnc) store(st *State, p *Ptr, v *Val) {
 			c = e.newVal(a.Ty, "undef")
 		}
 		st.cells[p.Alloc] = e.update(c, p.Path, v)
+		e.markAliased(v)
+		if st.leaked[p.Alloc] {
+			e.leakVal(v)
+		}
 	case rRef:
+		e.leakVal(v) // a pointer to a local stored in the heap is reachable by every later callee
 		v = e.heapable(v)
 		if sty := structOf(p.Elem); sty != nil {
 			if len(p.Path) > 0 && p.Path[0].Field >= 0 {
@@ -538,6 +638,7 @@ func (e *FEnc) store(st *State, p *Ptr, v *Val) {
 		nv := e.update(old, p.Path, v)
 		e.heapSet(st, hn, hs, fmt.Sprintf("(store %s %s %s)", h, p.Ref, e.term(nv)))
 	case rElem:
+		e.leakVal(v)
 		v = e.heapable(v)
 		hn, hs := e.d.heapElem(p.Elem)
 		h := e.heapGet(st, hn, hs)
@@ -794,7 +895,7 @@ func (e *FEnc) run() {
 		}
 	}
 	order := e.rpo()
-	st := &State{reach: "true", cells: map[int]*Val{}, heap: map[string]string{}, epoch: 0}
+	st := &State{reach: "true", cells: map[int]*Val{}, heap: map[string]string{}, epoch: 0, leaked: map[int]bool{}}
 	// parameters
 	for _, p := range fn.Params {
 		v := e.newVal(p.Type(), "p_"+mangle(p.Name()))
@@ -839,11 +940,17 @@ func (e *FEnc) run() {
 			}
 		}
 		e.curBlock = b
+		e.cur = cur
+		for _, id := range e.pendingLeaks {
+			e.leak(id)
+		}
+		e.pendingLeaks = nil
 		for i, in := range b.Instrs {
 			e.curIdx = i
 			e.instr(cur, b, i, in)
 		}
 		e.exit[b] = cur
+		e.cur = cur
 		// back edges out of this block
 		for si, s := range b.Succs {
 			if li, ok := e.loops[s]; ok && li.body[b] && s.Dominates(b) {
@@ -852,6 +959,7 @@ func (e *FEnc) run() {
 		}
 	}
 	e.finalize()
+	e.ghostDecls() // computed once, before obligations are solved concurrently
 }
 
 func (e *FEnc) rpo() []*ssa.BasicBlock {
@@ -1034,11 +1142,25 @@ func (e *FEnc) mergeVals(conds []string, vs []*Val, prefix string) *Val {
 		}
 		return n
 	}
-	// differing local pointers: stop tracking their targets
+	// differing pointers to local objects: when the objects are only reachable through these pointers
+	// (SSA dominance: values defined in a branch cannot be used after the join except through the phi)
+	// the join gets a merge object whose content is the join of the contents; otherwise tracking stops.
+	if m := e.mergeLocals(conds, vs, prefix); m != nil {
+		return m
+	}
 	for _, v := range vs {
 		if v.P != nil && v.P.Root == rLocal {
-			e.allocs[v.P.Alloc].Weak = true
+			a := e.allocs[v.P.Alloc]
+			a.Weak = true
+			if a.MergedInto > 0 {
+				e.allocs[a.MergedInto-1].Weak = true
+			}
 			e.note("pointers to different locals merged: target contents no longer tracked")
+		}
+	}
+	for _, v := range vs {
+		if v.Box != nil {
+			e.leakVal(v.Box) // the merged interface value no longer shows what it boxes
 		}
 	}
 	sortName := vs[0].Sort
@@ -1059,7 +1181,12 @@ func (e *FEnc) mergeStates(b *ssa.BasicBlock, es []inEdge) (*State, []string) {
 	for i, ed := range es {
 		conds[i] = e.nameBool(fmt.Sprintf("edge%d_%d", ed.pred.Index, b.Index), ed.cond)
 	}
-	st := &State{cells: map[int]*Val{}, heap: map[string]string{}}
+	st := &State{cells: map[int]*Val{}, heap: map[string]string{}, leaked: map[int]bool{}}
+	for _, ed := range es {
+		for k := range ed.state.leaked {
+			st.leaked[k] = true
+		}
+	}
 	r := e.fresh(fmt.Sprintf("rch%d", b.Index), "Bool")
 	e.fact(eq(r, or(conds...)))
 	st.reach = r
@@ -1138,6 +1265,7 @@ func (e *FEnc) mergeStates(b *ssa.BasicBlock, es []inEdge) (*State, []string) {
 }
 
 func (e *FEnc) enterBlock(b *ssa.BasicBlock) *State {
+	e.cur = nil
 	es := e.forwardEdges(b)
 	if len(es) == 0 {
 		return nil
@@ -1152,10 +1280,14 @@ func (e *FEnc) enterBlock(b *ssa.BasicBlock) *State {
 			break
 		}
 		var vs []*Val
+		var srcs []*State
 		for _, ed := range es {
 			vs = append(vs, e.valOf(ph.Edges[ed.pidx]))
+			srcs = append(srcs, ed.state)
 		}
+		e.mergeTarget, e.mergeSources = st, srcs
 		phiEntry[ph] = e.mergeVals(conds, vs, "phi_"+mangle(ph.Comment))
+		e.mergeTarget, e.mergeSources = nil, nil
 	}
 	if li == nil {
 		for ph, v := range phiEntry {
@@ -1183,7 +1315,7 @@ func (e *FEnc) enterBlock(b *ssa.BasicBlock) *State {
 	mod, callsOrHeap := e.loopModifies(li)
 	for id := range hs.cells {
 		a := e.allocs[id]
-		if a.Instr != nil && mod[a.Instr] || (a.Leaked && callsOrHeap) {
+		if a.Instr != nil && mod[a.Instr] || (hs.leaked[id] && callsOrHeap) {
 			hs.cells[id] = e.newVal(a.Ty, "lc_"+mangle(a.Name))
 		}
 	}
@@ -1258,7 +1390,11 @@ func (e *FEnc) loopModifies(li *loopInfo) (map[*ssa.Alloc]bool, bool) {
 					mod[a] = true
 				}
 				continue
-			case *ssa.Call, *ssa.Defer, *ssa.Go, *ssa.MapUpdate, *ssa.Send:
+			case *ssa.Call:
+				if !e.callKeepsHeap(x.Common()) {
+					heap = true
+				}
+			case *ssa.Defer, *ssa.Go, *ssa.MapUpdate, *ssa.Send:
 				heap = true
 			}
 			for _, op := range in.Operands(nil) {
@@ -1363,4 +1499,95 @@ func (e *FEnc) srcExpr(pos token.Pos) string {
 		}
 	}
 	return ""
+}
+
+// mergeLocals builds a merge object for a phi over pointers to distinct, unaliased local objects (or nil).
+func (e *FEnc) mergeLocals(conds []string, vs []*Val, prefix string) *Val {
+	st := e.mergeTarget
+	if st == nil {
+		return nil
+	}
+	var ty types.Type
+	for _, v := range vs {
+		if v.P == nil {
+			if v.T == "nil_ref" {
+				continue
+			}
+			return nil
+		}
+		if v.P.Root != rLocal || len(v.P.Path) != 0 {
+			return nil
+		}
+		a := e.allocs[v.P.Alloc]
+		if a.Weak || a.Aliased || a.MergedInto > 0 || a.Published {
+			return nil
+		}
+		if ty == nil {
+			ty = a.Ty
+		} else if !types.Identical(ty, a.Ty) {
+			return nil
+		}
+	}
+	if ty == nil {
+		return nil
+	}
+	var cs []string
+	var contents []*Val
+	nilCond := []string{}
+	for i, v := range vs {
+		if v.P == nil {
+			nilCond = append(nilCond, conds[i])
+			continue
+		}
+		src := e.mergeSources[i]
+		if src == nil {
+			return nil
+		}
+		c, ok := src.cells[v.P.Alloc]
+		if !ok {
+			return nil
+		}
+		cs = append(cs, conds[i])
+		contents = append(contents, c)
+	}
+	if len(contents) == 0 {
+		return nil
+	}
+	id := len(e.allocs)
+	m := &AllocInfo{ID: id, Ty: ty, Name: prefix + "_merged"}
+	e.allocs = append(e.allocs, m)
+	loc := fmt.Sprintf("loc_%d", id)
+	e.consts = append(e.consts, fmt.Sprintf("(declare-const %s Ref)", loc))
+	e.locs = append(e.locs, loc)
+	st.cells[id] = e.mergeVals(cs, contents, prefix+"_c")
+	for _, v := range vs {
+		if v.P != nil {
+			e.allocs[v.P.Alloc].MergedInto = id + 1
+		}
+	}
+	res := &Val{Ty: vs[0].Ty, Sort: "Ref", P: &Ptr{Root: rLocal, Alloc: id, Elem: ty}}
+	if len(nilCond) > 0 {
+		res.NilIf = e.nameBool("nilif", or(nilCond...))
+	}
+	return res
+}
+
+// callKeepsHeap: the callee is pure or carries a "frame none" contract (or is a harmless builtin).
+func (e *FEnc) callKeepsHeap(cc *ssa.CallCommon) bool {
+	if b, ok := cc.Value.(*ssa.Builtin); ok {
+		switch b.Name() {
+		case "len", "cap", "min", "max", "print", "println", "ssa:wrapnilchk":
+			return true
+		}
+		return false
+	}
+	var fc *FuncContract
+	if cc.IsInvoke() {
+		if n := namedOf(cc.Value.Type()); n != nil && n.Obj().Pkg() != nil {
+			fc = e.eng.contractByKey("iface:" + n.Obj().Pkg().Path() + "." + n.Obj().Name() + "." + cc.Method.Name())
+		}
+	} else if fn := cc.StaticCallee(); fn != nil {
+		fc = e.eng.contractOf(fn)
+	}
+	return fc != nil && (fc.Pure || fc.NoHavoc)
 }
